@@ -3,6 +3,7 @@ static Sequence.sequences_split_bars (snapshots of every input; oracle signature
 from vmon import gen
 from vmon.checks.common import obs, fail, random_prefix, apply_prefix
 
+SCALE = True   # worker: every 41st case is blown up by scale_case below
 PROP = "C09"
 MONITORS = ["bars"]
 INSITU = {"k": ""}
@@ -19,6 +20,16 @@ FLOORS = {"quick": {"bars.bar_length.armed": 2000, "bars.sound_exact.armed": 900
                     "c09.signature_change": 400, "c09.note_crosses_bar": 400},
           "thorough": {"bars.bar_length.armed": 60000}}
 VALS = gen.DEFAULT_NOTE_VALUES
+
+
+def scale_case(case, i):
+    """long pieces: 70-100 bars under one signature (or two), key changes somewhere inside, up to six tracks"""
+    import random
+    r = random.Random(f"c09-big:{i}")
+    q = case["quantise"]
+    case["piece"] = gen.piece(r, ntracks=r.choice([1, 2, 6]), lens=VALS if q else None, multi_channel=True, ragged=True, nseg=(1, 2), nbars=(70, 100),
+                              max_notes=40, sigs=[(4, 4), (3, 4), (6, 8), (8, 8), (2, 4)], ongrid=(lambda x: x % 4 == 0 or x % 6 == 0) if q else None)
+    case["prefixes"] = [[] for _ in case["piece"]["tracks"]]
 
 
 def make_case(rng, i, tier):
